@@ -14,7 +14,7 @@ class TypeDescriptor { public:
   const TypeDescriptor *BaseTypeDescriptor() const;
   const char *AttrTypeName(std::string &buf, const char *schnm = 0) const;
   const TypeDescriptor *NonRefTypeDescriptor() const; };
-class EntityDescriptor : public TypeDescriptor { public: bool IsA(const EntityDescriptor *) const; bool IsA(const char *) const; };
+class EntityDescriptor : public TypeDescriptor { public: bool IsA(const EntityDescriptor *) const; bool IsA(const char *) const; const TypeDescriptor *IsA(const TypeDescriptor *) const; };
 class AttrDescriptor { public:
   const char *Name() const; const std::string TypeName() const;
   PrimitiveType NonRefType() const; PrimitiveType Type() const; PrimitiveType BaseType() const;
